@@ -594,3 +594,18 @@ package value
 //@   property C05
 //@   safety C05
 //@   requires sortableOK(s) && 0 <= i && i < len(s.items) && 0 <= j && j < len(s.items)
+
+// ---------------------------------------------------------------- C14: equality of maps is equality of the abstract maps
+// Equals iterates the receiver's entries with a function literal (verified as the body of the iteration): the result is
+// true iff both maps have the same number of keys and every key of the receiver is a key of the other map with a value
+// that the element comparison `equal` accepts.
+//@ predicate entryEq(v any, other any, equal any, k string) = mhas(other.m, k) && bfOK(equal, mget(other.m, k), mget(v.m, k)) && bfV(equal, mget(other.m, k), mget(v.m, k))
+//@ func (v Map) Equals
+//@   property C14
+//@   safety C05
+//@   requires v.m != nil && other.m != nil && equal != nil && validStack(st)
+//@   requires[values-present] (forall k string :: mhas(v.m, k) ==> nonnil(mget(v.m, k))) && (forall k string :: mhas(other.m, k) ==> nonnil(mget(other.m, k)))
+//@   ensures[true-means-equal] result1 == nil && result0 ==> mcard(v.m) == mcard(other.m) && (forall k string :: mhas(v.m, k) ==> entryEq(v, other, equal, k))
+//@   ensures[false-means-different] result1 == nil && !result0 ==> mcard(v.m) != mcard(other.m) || (exists i in 0..mcard(v.m) :: !mhas(other.m, mkeyAt(v.m, i)) || (bfOK(equal, mget(other.m, mkeyAt(v.m, i)), mget(v.m, mkeyAt(v.m, i))) && !bfV(equal, mget(other.m, mkeyAt(v.m, i)), mget(v.m, mkeyAt(v.m, i)))))
+//@   callback "v.m.Iter(func" invariant eq && innerErr == nil && validStack(st) && mcard(v.m) == mcard(other.m) && (forall i in 0..cbidx :: entryEq(v, other, equal, mkeyAt(v.m, i)))
+//@   callback "v.m.Iter(func" stopped innerErr != nil || (!eq && validStack(st) && (exists i in 0..mcard(v.m) :: !mhas(other.m, mkeyAt(v.m, i)) || (bfOK(equal, mget(other.m, mkeyAt(v.m, i)), mget(v.m, mkeyAt(v.m, i))) && !bfV(equal, mget(other.m, mkeyAt(v.m, i)), mget(v.m, mkeyAt(v.m, i))))))
